@@ -10,7 +10,7 @@ from fractions import Fraction as F
 MULT = ("normfactor", "lumi", "normsys", "shapesys", "staterror", "shapefactor")
 
 
-def interp(env, code, a, lo, nom, hi):
+def interp(env, code, a, lo, nom, hi, alpha0=1):
     """published interpolation formulas; additive codes return the delta, multiplicative the factor"""
     N = env.num
     a, lo, nom, hi = N(a), N(lo), N(nom), N(hi)
@@ -33,25 +33,29 @@ def interp(env, code, a, lo, nom, hi):
         return env.ite(a >= 0, (hi / nom) ** a, (lo / nom) ** (-a))
     if code == "code4":
         up, dn = hi / nom, lo / nom
-        return env.ite(a >= 1, up ** a, env.ite(a <= -1, dn ** (-a), code4_poly(env, a, up, dn)))
+        a0 = F(alpha0)
+        return env.ite(a >= N(a0), up ** a, env.ite(a <= N(-a0), dn ** (-a), code4_poly(env, a, up, dn, a0)))
     raise KeyError(code)
 
 
-def code4_poly(env, a, up, dn):
-    """1 + sum a_i alpha^i with the a_i that solve the six boundary conditions at alpha0 = 1.
+def code4_poly(env, a, up, dn, alpha0=F(1)):
+    """1 + sum a_i alpha^i with the a_i that solve the six boundary conditions at +-alpha0.
 
     The coefficients are obtained here by solving the 6x6 system with exact rational Gaussian
     elimination (not copied from pyhf's A_inverse literal)."""
     N = env.num
     lu, ld = up.log(), dn.log()
-    rhs = [up - 1, dn - 1, lu * up, -ld * dn, lu * lu * up, ld * ld * dn]
+    z = F(alpha0)
+    upz, dnz = up ** N(z), dn ** N(z)
+    rhs = [upz - 1, dnz - 1, lu * upz, -ld * dnz, lu * lu * upz, ld * ld * dnz]
+    # value, first and second derivative of 1 + sum a_i x^i at x = +z and x = -z
     A = [
-        [1, 1, 1, 1, 1, 1],
-        [-1, 1, -1, 1, -1, 1],
-        [1, 2, 3, 4, 5, 6],
-        [1, -2, 3, -4, 5, -6],
-        [0, 2, 6, 12, 20, 30],
-        [0, 2, -6, 12, -20, 30],
+        [z ** i for i in range(1, 7)],
+        [(-z) ** i for i in range(1, 7)],
+        [i * z ** (i - 1) for i in range(1, 7)],
+        [i * (-z) ** (i - 1) for i in range(1, 7)],
+        [i * (i - 1) * z ** (i - 2) if i >= 2 else 0 for i in range(1, 7)],
+        [i * (i - 1) * (-z) ** (i - 2) if i >= 2 else 0 for i in range(1, 7)],
     ]
     inv = _invert([[F(x) for x in row] for row in A])
     poly = N(1)
